@@ -15,25 +15,38 @@ pub struct SEntry {
 /// says a writer does); with `elide == false` every offset is written as offset+1, which every
 /// conforming reader must accept as well.
 pub fn encode(entries: &[SEntry], elide: bool) -> Vec<u8> {
-    let mut out = Vec::with_capacity(entries.len() * 6 + 4);
-    varint::put(&mut out, entries.len() as u64);
+    from_values(&values(entries, elide))
+}
+
+/// The varint values of the encoding, in wire order: count, id deltas, run lengths, lengths, offsets.
+pub fn values(entries: &[SEntry], elide: bool) -> Vec<u64> {
+    let mut out = Vec::with_capacity(entries.len() * 4 + 1);
+    out.push(entries.len() as u64);
     let mut last = 0u64;
     for e in entries {
-        varint::put(&mut out, e.id - last);
+        out.push(e.id - last);
         last = e.id;
     }
     for e in entries {
-        varint::put(&mut out, u64::from(e.run));
+        out.push(u64::from(e.run));
     }
     for e in entries {
-        varint::put(&mut out, u64::from(e.len));
+        out.push(u64::from(e.len));
     }
     for (i, e) in entries.iter().enumerate() {
         if elide && i > 0 && e.off == entries[i - 1].off + u64::from(entries[i - 1].len) {
-            varint::put(&mut out, 0);
+            out.push(0);
         } else {
-            varint::put(&mut out, e.off + 1);
+            out.push(e.off + 1);
         }
+    }
+    out
+}
+
+pub fn from_values(vals: &[u64]) -> Vec<u8> {
+    let mut out = Vec::with_capacity(vals.len() * 2);
+    for v in vals {
+        varint::put(&mut out, *v);
     }
     out
 }
